@@ -24,6 +24,9 @@
                   barycentric transforms of the reference body is recomputed on every query)
      FrameCopy    express_in stores a copy of the frame  (library: TRUE; FALSE = keeps the caller's
                   array and skips the work when it already holds that very array)
+     BoxCache     "none": aabb() computes the world box on every call (library); "by_pose_value": the box is kept and
+                  returned again while body2origin_ compares equal to the pose it was computed for - wrong, because
+                  express_in rewrites the vertices (aabb, query as body 1, moved back to the old pose value, aabb)
      TreeRule     when aabb_tree is rebuilt: "none" = only if unset (library); "aabbs" = also if aabbs unset
      DetailsFirst contact_forces(return_details=True): make_details rewrites the contact points and forces of the
                   ContactSurface IN PLACE into the world frame; the library accumulates the wrenches first (FALSE).
@@ -33,12 +36,18 @@
    HydroSession_mut_*.cfg changes one decision, and TLC prints each shortest history that exposes it
    (WITNESS lines) - those histories are replayed on the implementation by harness/props/c16.py. *)
 EXTENDS Integers, Sequences, FiniteSets, TLC, Json
-CONSTANTS Bodies, Invalidate, Cached, FrameCopy, TreeRule, DetailsFirst, MaxCalls, MaxMoves, Witness
-VARIABLES ver, vfr, ofr, arr, cache, stale, hist
-vars == <<ver, vfr, ofr, arr, cache, stale, hist>>
+CONSTANTS Bodies, Invalidate, Cached, FrameCopy, TreeRule, DetailsFirst, BoxCache, MaxCalls, MaxMoves, Witness
+VARIABLES ver, vfr, ofr, arr, cache, stale, hist,
+          pval,    \* pval[b]: the VALUE of the matrix in body2origin_, named by the label of the frame that first had it
+                   \* (two labels can carry the same value: a body moved back to an earlier pose)
+          vgen,    \* vgen[b]: how often express_in has rewritten the vertices of b with other numbers
+          boxc     \* boxc[b]: the world box kept by aabb() under the design BoxCache = "by_pose_value":
+                   \* NoBox or <<pose value it was computed for, vgen at that time>>
+vars == <<ver, vfr, ofr, arr, cache, stale, hist, pval, vgen, boxc>>
 Caches == {"tetrahedra_points", "com", "aabbs", "aabb_tree", "bary"}
 None == <<"none", 0>>
 Wrong == <<"wrong", 0>>
+NoBox == <<None, -1>>
 Own(b) == <<b, ver[b]>>
 
 Init == /\ ver = [b \in Bodies |-> 0]
@@ -46,6 +55,7 @@ Init == /\ ver = [b \in Bodies |-> 0]
         /\ arr = [b \in Bodies |-> b]
         /\ cache = [b \in Bodies |-> [c \in Caches |-> None]]
         /\ stale = FALSE /\ hist = <<>>
+        /\ pval = [b \in Bodies |-> <<b, 0>>] /\ vgen = [b \in Bodies |-> 0] /\ boxc = [b \in Bodies |-> NoBox]
 
 (* reading the lazily computed data `used` of a body whose vertices are in frame f; the tree is built from aabbs *)
 Read(cb, used, f) ==
@@ -62,7 +72,7 @@ Step(e) == Len(hist) < MaxCalls /\ ~stale /\ hist' = Append(hist, e)
 (* contact_forces / find_contact_surface(b1, b2, use_aabb_trees = (bp = "tree")) *)
 ContactForces(b1, b2, bp, det) ==
   /\ b1 # b2
-  /\ Step([op |-> "cf", b1 |-> b1, b2 |-> b2, bp |-> bp, det |-> det, how |-> "-"])
+  /\ Step([op |-> "cf", b1 |-> b1, b2 |-> b2, bp |-> bp, det |-> det, how |-> "-", back |-> FALSE])
   /\ LET skip  == ~FrameCopy /\ arr[b1] = arr[b2] /\ arr[b1] # "private"
          f     == IF skip THEN vfr[b1] ELSE IF vfr[b1] = ofr[b1] THEN ofr[b2] ELSE Wrong
          used1 == {"tetrahedra_points", "com"} \cup (IF bp = "tree" THEN {"aabb_tree"} ELSE {"aabbs"})
@@ -76,42 +86,53 @@ ContactForces(b1, b2, bp, det) ==
         /\ cache' = [cache EXCEPT ![b1] = Forget(c1), ![b2] = Forget(c2)]
         /\ stale' = (StaleRead(c1, used1, f) \/ StaleRead(c2, used2, vfr[b2]) \/ vfr[b2] # ofr[b2] \/ f = Wrong
                      \/ (DetailsFirst /\ det))
-        /\ UNCHANGED ver
+        /\ pval' = [pval EXCEPT ![b1] = pval[b2]]
+        /\ vgen' = [vgen EXCEPT ![b1] = IF skip \/ pval[b1] = pval[b2] THEN vgen[b1] ELSE vgen[b1] + 1]
+        /\ UNCHANGED <<ver, boxc>>
 
-(* the user moves a body that is expressed in its own frame: in place (mutating the pose array) or update_pose(new array) *)
-Move(b, how) ==
-  /\ vfr[b] = Own(b) /\ ofr[b] = Own(b) /\ ver[b] < MaxMoves
-  /\ Step([op |-> "move", b1 |-> b, b2 |-> b, bp |-> "-", det |-> FALSE, how |-> how])
+(* the user moves a body by giving it another pose: in place (mutating the pose array) or update_pose(new array).
+   The vertices keep their numbers, so the new pose DEFINES the new world placement; this is possible whatever frame
+   the body is currently expressed in (after a query body 1 is expressed in the frame of body 2).  back = TRUE: the
+   new matrix has the value the body's pose had at the start of the session (the body is "moved back": a new frame
+   label with an old pose value) *)
+Move(b, how, back) ==
+  /\ vfr[b] = ofr[b] /\ ver[b] < MaxMoves
+  /\ Step([op |-> "move", b1 |-> b, b2 |-> b, bp |-> "-", det |-> FALSE, how |-> how, back |-> back])
   /\ LET new == <<b, ver[b] + 1>>
          shared == IF how = "inplace" /\ arr[b] # "private" THEN {c \in Bodies : arr[c] = arr[b]} ELSE {b}
      IN /\ ver' = [ver EXCEPT ![b] = ver[b] + 1]
         /\ ofr' = [c \in Bodies |-> IF c \in shared THEN new ELSE ofr[c]]
+        /\ pval' = [c \in Bodies |-> IF c \in shared THEN (IF back THEN <<b, 0>> ELSE new) ELSE pval[c]]
         /\ vfr' = [vfr EXCEPT ![b] = new]                       \* body coordinates are unchanged, the frame moved
         /\ arr' = [arr EXCEPT ![b] = IF how = "inplace" THEN arr[b] ELSE b]
-        /\ cache' = [cache EXCEPT ![b] = [c \in Caches |-> IF cache[b][c] = Own(b) THEN new ELSE cache[b][c]]]
+        /\ cache' = [cache EXCEPT ![b] = [c \in Caches |-> IF cache[b][c] = vfr[b] THEN new ELSE cache[b][c]]]
         /\ stale' = \E c \in shared \ {b} : vfr[c] # new          \* somebody else's frame label moved under its vertices
+        /\ UNCHANGED <<boxc, vgen>>
 (* the user reads b.aabb_tree (a public property): fills aabbs and the tree *)
 Tree(b) ==
-  /\ Step([op |-> "tree", b1 |-> b, b2 |-> b, bp |-> "-", det |-> FALSE, how |-> "-"])
+  /\ Step([op |-> "tree", b1 |-> b, b2 |-> b, bp |-> "-", det |-> FALSE, how |-> "-", back |-> FALSE])
   /\ LET c1 == Read(cache[b], {"aabb_tree"}, vfr[b])
      IN cache' = [cache EXCEPT ![b] = Forget(c1)] /\ stale' = StaleRead(c1, {"aabb_tree"}, vfr[b])
-  /\ UNCHANGED <<ver, vfr, ofr, arr>>
+  /\ UNCHANGED <<ver, vfr, ofr, arr, pval, vgen, boxc>>
 (* the user reads the public properties tetrahedra_points, com, aabbs and then aabb_tree of b *)
 Inspect(b) ==
-  /\ Step([op |-> "inspect", b1 |-> b, b2 |-> b, bp |-> "-", det |-> FALSE, how |-> "-"])
+  /\ Step([op |-> "inspect", b1 |-> b, b2 |-> b, bp |-> "-", det |-> FALSE, how |-> "-", back |-> FALSE])
   /\ LET c1 == Read(cache[b], {"tetrahedra_points", "com", "aabbs"}, vfr[b])
          c2 == Read(c1, {"aabb_tree"}, vfr[b])
      IN cache' = [cache EXCEPT ![b] = Forget(c2)]
         /\ stale' = (StaleRead(c1, {"tetrahedra_points", "com", "aabbs"}, vfr[b]) \/ StaleRead(c2, {"aabb_tree"}, vfr[b]))
-  /\ UNCHANGED <<ver, vfr, ofr, arr>>
+  /\ UNCHANGED <<ver, vfr, ofr, arr, pval, vgen, boxc>>
 (* the user reads b.aabb(): the box of vertices_ taken to the world through body2origin_ *)
 Aabb(b) ==
-  /\ Step([op |-> "aabb", b1 |-> b, b2 |-> b, bp |-> "-", det |-> FALSE, how |-> "-"])
-  /\ stale' = (vfr[b] # ofr[b])
-  /\ UNCHANGED <<ver, vfr, ofr, arr, cache>>
+  /\ Step([op |-> "aabb", b1 |-> b, b2 |-> b, bp |-> "-", det |-> FALSE, how |-> "-", back |-> FALSE])
+  /\ IF BoxCache = "by_pose_value" /\ boxc[b] # NoBox /\ boxc[b][1] = pval[b]
+     THEN stale' = (boxc[b][2] # vgen[b] \/ vfr[b] # ofr[b]) /\ UNCHANGED boxc       \* the kept box is returned
+     ELSE /\ stale' = (vfr[b] # ofr[b])
+          /\ boxc' = [boxc EXCEPT ![b] = IF BoxCache = "none" THEN NoBox ELSE <<pval[b], vgen[b]>>]
+  /\ UNCHANGED <<ver, vfr, ofr, arr, cache, pval, vgen>>
 
 Next == \/ \E b1, b2 \in Bodies, bp \in {"brute", "tree"}, det \in BOOLEAN : ContactForces(b1, b2, bp, det)
-        \/ \E b \in Bodies, how \in {"inplace", "assign"} : Move(b, how)
+        \/ \E b \in Bodies, how \in {"inplace", "assign"}, back \in BOOLEAN : Move(b, how, back)
         \/ \E b \in Bodies : Tree(b) \/ Aabb(b) \/ Inspect(b)
 Spec == Init /\ [][Next]_vars
 
